@@ -4,6 +4,7 @@ import (
 	"errors"
 	"fmt"
 	"slices"
+	"strconv"
 	"strings"
 
 	"github.com/cedar-policy/cedar-go/internal/parser"
@@ -806,7 +807,7 @@ func (v *Validator) typeOfHas(env *requestEnv, n ast.NodeTypeHas, caps capabilit
 
 	if _, isBool := resultType.(typeBool); isBool {
 		if varName := exprVarName(n.Arg); varName != "" {
-			if caps.has(capability{varName: varName, attr: n.Value}) {
+			if caps.has(capability{varName: exprCapKey(n.Arg), attr: n.Value}) {
 				resultType = typeTrue{}
 			}
 		}
@@ -814,7 +815,7 @@ func (v *Validator) typeOfHas(env *requestEnv, n ast.NodeTypeHas, caps capabilit
 
 	newCaps := caps
 	if varName := exprVarName(n.Arg); varName != "" {
-		newCaps = caps.add(capability{varName: varName, attr: n.Value})
+		newCaps = caps.add(capability{varName: exprCapKey(n.Arg), attr: n.Value})
 	}
 
 	return resultType, newCaps, nil
@@ -879,7 +880,7 @@ func (v *Validator) typeOfAccess(env *requestEnv, n ast.NodeTypeAccess, caps cap
 	// Check if the attribute is optional and requires a `has` guard
 	if !attrType.required {
 		varName := exprVarName(n.Arg)
-		if varName == "" || !caps.has(capability{varName: varName, attr: n.Value}) {
+		if varName == "" || !caps.has(capability{varName: exprCapKey(n.Arg), attr: n.Value}) {
 			errs = append(errs, v.unsafeOptionalAccessError(env, t, n.Value, exprVarName(n.Arg)))
 		}
 	}
@@ -1037,7 +1038,7 @@ func (v *Validator) typeOfHasTag(env *requestEnv, n ast.NodeTypeHasTag, caps cap
 	if varName := exprVarName(n.Left); varName != "" {
 		tagKey := tagCapabilityKey(n.Right)
 		if tagKey != "" {
-			newCaps = caps.add(capability{varName: varName, attr: types.String("__tag:" + tagKey)})
+			newCaps = caps.add(capability{varName: exprCapKey(n.Left), attr: tagKey, tag: true})
 		}
 	}
 
@@ -1086,7 +1087,7 @@ func (v *Validator) typeOfGetTag(env *requestEnv, n ast.NodeTypeGetTag, caps cap
 
 	varName := exprVarName(n.Left)
 	tagKey := tagCapabilityKey(n.Right)
-	hasCapability := varName != "" && tagKey != "" && caps.has(capability{varName: varName, attr: types.String("__tag:" + tagKey)})
+	hasCapability := varName != "" && tagKey != "" && caps.has(capability{varName: exprCapKey(n.Left), attr: tagKey, tag: true})
 
 	if hasCapability {
 		// Capability is only set by hasTag when entity supports tags
@@ -1384,6 +1385,20 @@ func exprVarName(n ast.IsNode) types.String {
 	if nd, ok := n.(ast.NodeTypeAccess); ok {
 		if parent := exprVarName(nd.Arg); parent != "" {
 			return parent + "." + nd.Value
+		}
+	}
+	return ""
+}
+
+// exprCapKey is like exprVarName but quotes every attribute name, so that distinct access paths
+// (e.g. context["a.b"] and context.a.b) never share a capability key.
+func exprCapKey(n ast.IsNode) types.String {
+	if nd, ok := n.(ast.NodeTypeVariable); ok {
+		return nd.Name
+	}
+	if nd, ok := n.(ast.NodeTypeAccess); ok {
+		if parent := exprCapKey(nd.Arg); parent != "" {
+			return parent + "." + types.String(strconv.Quote(string(nd.Value)))
 		}
 	}
 	return ""
